@@ -18,6 +18,8 @@ const (
 	kUnit
 	kTParam
 	kStruct
+	kFunc // callback parameter
+	kErr  // the predeclared type `error` (GoSem.Err)
 )
 
 // ty is the Lean-side view of a Go type.
@@ -29,9 +31,14 @@ type ty struct {
 	str    bool   // a Go string (List (BitVec 8))
 	name   string // type parameter / structure name
 	st     *structInfo
+	// kFunc (callback parameter): parameter types, result (nil when fnMut)
+	fnArgs []*ty
+	fnRes  *ty
+	fnMut  bool // func([]T, …) without results: may write the slice it is handed, may panic
 }
 
 type structInfo struct {
+	tparams []string // generic struct: `structure Name (T : Type)`
 	name   string
 	fields []string
 	ftypes []*ty
@@ -51,6 +58,19 @@ func (t *ty) lean() string {
 		return "Unit"
 	case kTParam, kStruct:
 		return t.name
+	case kErr:
+		return "GoSem.Err"
+	case kFunc:
+		var parts []string
+		for _, a := range t.fnArgs {
+			parts = append(parts, a.lean())
+		}
+		if t.fnMut {
+			parts = append(parts, "Res ("+t.fnArgs[0].lean()+")")
+		} else {
+			parts = append(parts, t.fnRes.lean())
+		}
+		return strings.Join(parts, " → ")
 	}
 	return "?"
 }
@@ -76,6 +96,10 @@ func (t *ty) zero() (string, bool) {
 		return "([] : " + t.lean() + ")", true
 	case kUnit:
 		return "()", true
+	case kTParam:
+		return "(default : " + t.name + ")", true
+	case kErr:
+		return "GoSem.Err.nil", true
 	case kStruct:
 		var fs []string
 		for i, f := range t.st.fields {
@@ -112,10 +136,29 @@ func (t *ty) code() string {
 			return "bytes"
 		}
 		c := t.elem.code()
+		if strings.HasPrefix(c, "tparam:") {
+			return "list:" + c
+		}
 		if c == "" || strings.Contains(c, ":") || c == "bytes" || c == "str" {
 			return ""
 		}
 		return "list:" + c
+	case kTParam:
+		return "tparam:" + t.name
+	case kErr:
+		return "err"
+	case kFunc:
+		// execution path: a small fixed menu of callbacks selected by one integer token
+		if !t.fnMut && len(t.fnArgs) == 2 && sameTy(t.fnArgs[0], t.fnArgs[1]) && t.fnRes.k == kBool {
+			if c := t.fnArgs[0].code(); c != "" {
+				return "menu:cmp:" + c
+			}
+		}
+		if t.fnMut && len(t.fnArgs) == 3 && t.fnArgs[0].k == kList && t.fnArgs[1].k == kInt && t.fnArgs[2].k == kInt {
+			if c := t.fnArgs[0].elem.code(); c != "" {
+				return "menu:swap:" + c
+			}
+		}
 	}
 	return ""
 }
@@ -166,6 +209,9 @@ func (t *fn) goType(gt types.Type) (*ty, error) {
 		}
 		return nil, fmt.Errorf("type %s is outside the subset (floating point, complex, unsafe pointers are not translated)", u)
 	case *types.Named:
+		if u.Obj().Pkg() == nil && u.Obj().Name() == "error" {
+			return &ty{k: kErr}, nil
+		}
 		if _, ok := u.Underlying().(*types.Struct); ok {
 			return t.structType(u)
 		}
@@ -182,6 +228,9 @@ func (t *fn) goType(gt types.Type) (*ty, error) {
 		}
 		return &ty{k: kList, elem: e}, nil
 	case *types.TypeParam:
+		if r := uniformTypeSet(t, u); r != nil {
+			return r, nil
+		}
 		return &ty{k: kTParam, name: u.Obj().Name()}, nil
 	case *types.Tuple:
 		if u.Len() == 0 {
@@ -210,21 +259,39 @@ func (t *fn) goType(gt types.Type) (*ty, error) {
 // (declared once per generated file).
 func (t *fn) structType(n *types.Named) (*ty, error) {
 	name := n.Obj().Name()
-	if n.TypeArgs() != nil && n.TypeArgs().Len() > 0 {
-		return nil, fmt.Errorf("instantiated generic struct %s is outside the subset", n)
+	// a generic struct is translated when it is used at type PARAMETERS (Ring[T] inside the methods
+	// of Ring[T] or inside a generic function): `structure Ring (T : Type)`
+	var targs []string
+	if n.TypeArgs() != nil {
+		for i := 0; i < n.TypeArgs().Len(); i++ {
+			tp, ok := n.TypeArgs().At(i).(*types.TypeParam)
+			if !ok {
+				return nil, fmt.Errorf("generic struct instantiated at a concrete type (%s) is outside the subset", n)
+			}
+			if uniformTypeSet(t, tp) != nil {
+				return nil, fmt.Errorf("generic struct %s over an erased type parameter is outside the subset", n)
+			}
+			targs = append(targs, tp.Obj().Name())
+		}
+	} else if n.TypeParams() != nil && n.TypeParams().Len() > 0 {
+		return nil, fmt.Errorf("uninstantiated generic struct %s", n)
 	}
-	if n.TypeParams() != nil && n.TypeParams().Len() > 0 {
-		return nil, fmt.Errorf("generic struct %s is outside the subset", n)
+	full := name
+	if len(targs) > 0 {
+		full = name + " " + strings.Join(targs, " ")
 	}
 	if si, ok := t.g.structs[name]; ok {
 		if si == nil {
 			return nil, fmt.Errorf("recursive struct %s is outside the subset", name)
 		}
-		return &ty{k: kStruct, name: name, st: si}, nil
+		if strings.Join(si.tparams, " ") != strings.Join(targs, " ") {
+			return nil, fmt.Errorf("generic struct %s used with differently named type parameters (%v vs %v): outside the subset", name, si.tparams, targs)
+		}
+		return &ty{k: kStruct, name: full, st: si}, nil
 	}
 	t.g.structs[name] = nil
 	st := n.Underlying().(*types.Struct)
-	si := &structInfo{name: name}
+	si := &structInfo{name: name, tparams: targs}
 	for i := 0; i < st.NumFields(); i++ {
 		f := st.Field(i)
 		if f.Embedded() {
@@ -241,7 +308,7 @@ func (t *fn) structType(n *types.Named) (*ty, error) {
 	}
 	t.g.structs[name] = si
 	t.g.structOrder = append(t.g.structOrder, name)
-	return &ty{k: kStruct, name: name, st: si}, nil
+	return &ty{k: kStruct, name: full, st: si}, nil
 }
 
 // lit renders a Go constant of the given type.
@@ -309,4 +376,52 @@ func leanIdent(s string) string {
 		return s + "'"
 	}
 	return s
+}
+
+// funcParamTy: the translation of a callback PARAMETER (function values are translated nowhere else).
+//   func(A, B, …) R        ↦ `A → B → … → R`, ASSUMED pure and total (no panic, no effect, no retained argument)
+//   func([]T, A, …) (none) ↦ `List T → A → … → Res (List T)`: may write the elements of the slice it is
+//                            handed (state passing) and may panic; ASSUMED to have no other effect
+func (t *fn) funcParamTy(sig *types.Signature) (*ty, error) {
+	if sig.Variadic() || sig.Recv() != nil || sig.TypeParams() != nil && sig.TypeParams().Len() > 0 {
+		return nil, fmt.Errorf("callback type %s is outside the subset", sig)
+	}
+	r := &ty{k: kFunc}
+	for i := 0; i < sig.Params().Len(); i++ {
+		at, err := t.goType(sig.Params().At(i).Type())
+		if err != nil {
+			return nil, fmt.Errorf("callback parameter %d: %v", i, err)
+		}
+		if at.k == kStruct || at.k == kErr {
+			return nil, fmt.Errorf("callback with a struct/error parameter is outside the subset")
+		}
+		r.fnArgs = append(r.fnArgs, at)
+	}
+	if len(r.fnArgs) == 0 {
+		return nil, fmt.Errorf("callback without parameters (it can only act through effects) is outside the subset")
+	}
+	switch sig.Results().Len() {
+	case 1:
+		rt, err := t.goType(sig.Results().At(0).Type())
+		if err != nil {
+			return nil, fmt.Errorf("callback result: %v", err)
+		}
+		if rt.k == kList && !rt.str || rt.k == kStruct || rt.k == kErr {
+			return nil, fmt.Errorf("callback returning a slice/struct/error is outside the subset")
+		}
+		r.fnRes = rt
+		return r, nil
+	case 0:
+		if r.fnArgs[0].k == kList && !r.fnArgs[0].str {
+			for _, a := range r.fnArgs[1:] {
+				if a.k == kList && !a.str {
+					return nil, fmt.Errorf("callback without results taking two slices is outside the subset (aliasing)")
+				}
+			}
+			r.fnMut = true
+			return r, nil
+		}
+		return nil, fmt.Errorf("callback without results whose first parameter is not a slice (it can only act through effects) is outside the subset")
+	}
+	return nil, fmt.Errorf("callback with several results is outside the subset")
 }
